@@ -7,7 +7,9 @@
   CPython's tokenizer and the character-level layout rewrites are checked on the real code by the search (harness/c13.py).
 -/
 import Tranp.Lemmas.Lexer
+import Tranp.Lemmas.LexerShape
 import Tranp.Generated.TokenDef
+import Tranp.Generated.LexerShape
 
 namespace Tranp.C13
 open Tranp Tranp.Lexer Tranp.Generated.TokenDef
@@ -569,5 +571,71 @@ example :
       commentLineInsertOK pyDef src 28 [' '] ['!'] (['#'], ['\n']) &&
       !blankInsertOK pyDef ['y','=','-','a'] 3 [' '] && blankInsertOK pyDef ['y','=','-','a'] 2 [' ']) = true := by
   decide +kernel
+
+/-! ### the control flow of the code as generated data (translate/gen_lexer_shape.py → Generated/LexerShape.lean) -/
+
+/-- **`parse_symbol` is its window loop.** The hand model equals the table-driven reading of `for i in range(n)` on the
+    table the translator extracts from tokenizer.py on every run (per round: window width, what the "window does not fit"
+    guard and the "not a combined symbol" guard do). A `break` in place of a `continue`, another width or another number of
+    rounds changes the table and this equality stops building. -/
+theorem shape_parse_symbol (d : TokenDef) (src : Str) (b : Nat) :
+    parseSymbol d src b = parseSymbolBy Generated.LexerShape.symbolWindows d src b := by
+  simp only [parseSymbolBy, Generated.LexerShape.symbolWindows, scan_cons_next]
+  unfold parseSymbol singleSymbol
+  cases combined d src b 3 with
+  | error e => rfl
+  | ok r3 =>
+    cases r3 with
+    | some r => rfl
+    | none =>
+      cases combined d src b 2 with
+      | error e => rfl
+      | ok r2 =>
+        cases r2 with
+        | some r => rfl
+        | none => rfl
+
+/-- the table matters: with the fit guard leaving the loop (`break`), `-=` as the last two characters of a source is no
+    longer one token — the reading of the generated table and that of the changed table differ on a concrete input -/
+example :
+    (parseSymbolBy [⟨3, .stop, .next⟩, ⟨2, .stop, .next⟩] pyDef ['a', '-', '='] 1).map (fun r => (r.1, r.2.type, r.2.string))
+        = .ok (2, T.minus, Special.opUnaryMinus)
+    ∧ (parseSymbolBy Generated.LexerShape.symbolWindows pyDef ['a', '-', '='] 1).map (fun r => (r.1, r.2.type, r.2.string))
+        = .ok (3, T.beginCombine, ['-', '=']) := by
+  constructor <;> rfl
+
+/-- **`handle_white_space` is its branch table.** Per emitting branch (end of input / deeper / shallower / same depth) the
+    index advance, the assignment to `context.nest` and the returned token list — in particular one INDENT per deeper line
+    and `nest - next_nest` DEDENTs per shallower line — are read from the code; the hand model equals their interpretation. -/
+theorem shape_handle_white_space (c : Ctx) (t : Token) :
+    handleWhiteSpace c t = handleWhiteSpaceBy Generated.LexerShape.wsShape c t := by
+  simp only [handleWhiteSpace, handleWhiteSpaceBy, Generated.LexerShape.wsShape, runBranch, emitAll, emitOne, Count.eval,
+    Token.toNewLine, Token.toIndent, Token.toDedent]
+  by_cases hd : t.domain = Dom.whiteSpace <;> simp only [hd, ↓reduceIte] <;>
+    repeat' (split <;> try (first | rfl | simp [bind, Except.bind, pure, Except.pure]))
+
+/-- the table matters: one DEDENT per shallower line (instead of `nest - next_nest`) loses a block end when a line closes two
+    blocks at once -/
+example :
+    (handleWhiteSpaceBy { Generated.LexerShape.wsShape with shallower := ⟨.one, .next, [.newLine, .dedent .one]⟩ }
+        ⟨2, 0, some 1⟩ ⟨T.lineBreak, ['\n'], SourceMap.empty⟩).map (fun r => r.2.2.map (·.type)) = .ok [T.newLine, T.dedent]
+    ∧ (handleWhiteSpaceBy Generated.LexerShape.wsShape
+        ⟨2, 0, some 1⟩ ⟨T.lineBreak, ['\n'], SourceMap.empty⟩).map (fun r => r.2.2.map (·.type)) = .ok [T.newLine, T.dedent, T.dedent] := by
+  constructor <;> rfl
+
+/-- **`handle_symbol` is its two type lists**: the bracket types that raise / lower `context.enclosure`, read from the code. -/
+theorem shape_handle_symbol (c : Ctx) (t : Token) :
+    handleSymbol c t = handleSymbolBy Generated.LexerShape.enclosureOpen Generated.LexerShape.enclosureClose c t := by
+  have ho : Generated.LexerShape.enclosureOpen.contains t.type = true ↔ (t.type = T.parenL ∨ t.type = T.braceL ∨ t.type = T.bracketL) := by
+    simp [Generated.LexerShape.enclosureOpen, T.parenL, T.braceL, T.bracketL]
+  have hc : Generated.LexerShape.enclosureClose.contains t.type = true ↔ (t.type = T.parenR ∨ t.type = T.braceR ∨ t.type = T.bracketR) := by
+    simp [Generated.LexerShape.enclosureClose, T.parenR, T.braceR, T.bracketR]
+  unfold handleSymbol handleSymbolBy
+  by_cases h1 : (t.type = T.parenL ∨ t.type = T.braceL ∨ t.type = T.bracketL)
+  · rw [if_pos h1, if_pos (ho.mpr h1)]
+  · rw [if_neg h1, if_neg (fun h => h1 (ho.mp h))]
+    by_cases h2 : (t.type = T.parenR ∨ t.type = T.braceR ∨ t.type = T.bracketR)
+    · rw [if_pos h2, if_pos (hc.mpr h2)]
+    · rw [if_neg h2, if_neg (fun h => h2 (hc.mp h))]
 
 end Tranp.C13
